@@ -53,6 +53,7 @@ class Sim:
     def __init__(self, cfg=None):
         cfg = cfg or {}
         self.seed = int(cfg.get("sched_seed", 0))
+        self.fault_seed = int(cfg.get("fault_seed", self.seed))  # which labels are faulted (rate mode)
         f = cfg.get("faults") or {}
         self.explicit = {}
         for e in f.get("explicit", []) or []:
@@ -146,9 +147,9 @@ class Sim:
             return None
         for kind in FAULT_SITES[site]:
             r = rates.get(kind, 0.0)
-            if r > 0 and unit(self.seed, "fault", label, kind) < r:
+            if r > 0 and unit(self.fault_seed, "fault", label, kind) < r:
                 e = {"site": site, "key": list(key), "kind": kind}
-                h = H(self.seed, "faultparam", label, kind)
+                h = H(self.fault_seed, "faultparam", label, kind)
                 if site == "mcs_job" and kind == "timeout":
                     e["lines"] = h % 16
                     if self.wake_sites and (h >> 8) % 3 == 0:
